@@ -21,6 +21,12 @@ Theorem C12_parse_glob_total : forall (n : nat) (s : str), length s <= n -> pars
 Proof. exact parse_glob_fuel_enough. Qed.
 Print Assumptions C12_parse_glob_total.
 
+(* a pattern text is read exactly as the grammar GlobP.parses says (`*`, `?`, `[` optional `!` members `]` where the first member
+   may be `]` and x-y is a range, an unclosed `[` is an ordinary character, anything else is itself) *)
+Theorem C12_parse_glob_spec : forall (s : str) (p : pattern), parses s p <-> p = parse_glob s.
+Proof. exact parse_glob_spec_proof. Qed.
+Print Assumptions C12_parse_glob_spec.
+
 (* ------------------------------------------------------------------ selection *)
 (* for every filter and every forest: the tests of the filtered forest, with their hierarchies (hence paths), in order, are
    exactly the tests of the project that satisfy the declarative specification test_spec, in the project's order *)
